@@ -594,7 +594,7 @@ def verify(contract: Contract, tier="quick", callee_contracts=None) -> list[OR]:
                 allunsat = False
         results.append(OR(id=f"{prefix}.mustfail.{nm}", status=REFUTED if refuted else (PROVED if allunsat else UNKNOWN), kind="G",
                           target=target, role="guard", must_fail=True, desc=f"must-fail twin: NOT '{nm}' has to be refuted"))
-    if not posts and not any(vc.id.startswith("pre.") for vc in vcs):       # call-site preconditions of callee contracts are obligations too
+    if not posts and not any(vc.id.startswith(("pre.", "continue.", "break.", "raises.")) for vc in vcs):       # call-site preconditions of callee contracts are obligations too
         results.append(OR(id=f"{prefix}.guard.noposts", status=ERROR, kind="G", target=target, role="guard",
                           detail="no postcondition VC generated"))
     for r in results:
